@@ -5,11 +5,11 @@ package main
 
 // classBounds limits the histories of one class (only series a / both series).
 type classBounds struct {
-	MaxWrites    int   `json:"max_writes"`
-	MaxGapOps    []int `json:"max_gap_ops_by_writes"` // index = number of writes of the history (0 unused)
-	Slots        []string `json:"slots"`             // slot choices of a write
-	FarWrites    int   `json:"far_slot_up_to_writes"` // the slot "far" (beyond the memdb write window) only in histories up to this length
-	ReopenWrites int   `json:"reopen_up_to_writes"`   // a reopen (~0.5 s) only in histories up to this length
+	MaxWrites    int      `json:"max_writes"`
+	MaxGapOps    []int    `json:"max_gap_ops_by_writes"` // index = number of writes of the history (0 unused)
+	Slots        []string `json:"slots"`                 // slot choices of a write
+	FarWrites    int      `json:"far_slot_up_to_writes"` // the slot "far" (beyond the memdb write window) only in histories up to this length
+	ReopenWrites int      `json:"reopen_up_to_writes"`   // a reopen (~0.5 s) only in histories up to this length
 	// histories up to this length are also run with each of the five one-field metrics
 	OneFieldWrites int `json:"one_field_metric_up_to_writes"`
 }
